@@ -105,6 +105,9 @@ PostAlignUp(v, k, r) == IsMultL(r, k) /\ LeqL(v, r) /\ LessL(SubL(r, v), Pow2L(k
 \* rshift_align_up(num, bits): documented as ceil(num / 2^bits); "for every input that does not
 \* overflow" = num + 2^bits - 1 fits the word.
 PreCeilShr(v, k) == ~AddOverflows(v, SubL(Pow2L(k), OneL))
+\* bytes_to_chunks_up computes `(bytes + BYTES_IN_CHUNK - 1) >> LOG` left to right: the intermediate
+\* sum bytes + 2^k has to fit the word (one more input, 2^W - 2^k, is outside the domain)
+PreCeilShrStrict(v, k) == ~AddOverflows(v, Pow2L(k))
 \* r = ceil(v / 2^k): r * 2^k does not overflow, r * 2^k >= v, r * 2^k - v < 2^k
 PostCeilShr(v, k, r) ==
     LET s == ShLL(r, k)
@@ -202,7 +205,7 @@ CONSTANTS MaxLogAlign,   \* alignments 2^0 .. 2^MaxLogAlign for the allocation f
 VARIABLE v
 \* a binary tree over the word (v -> 2v, 2v+1) so that TLC's workers share the values
 Init == v = 0
-Step == \E b \in {0, 1} : 2 * v + b < Top /\ v' = 2 * v + b
+Step == v' \in {x \in {2 * v, 2 * v + 1} : x < Top /\ x # v}
 Spec == Init /\ [][Step]_v
 
 Logs == 0..(W - 1)
